@@ -37,6 +37,9 @@ type CorDef[T any] struct {
 	isStarted AtomBool
 	isClosed  AtomBool
 	closedM   sync.Mutex
+	// doneCh is closed as soon as the Cor is done: a sender blocked on a full channel (while holding closedM) gives up
+	doneCh   chan struct{}
+	doneOnce sync.Once
 
 	opCh     chan *CorOp[T]
 	resultCh chan T
@@ -55,6 +58,7 @@ func CorNewGenerics[T any](effect func()) *CorDef[T] {
 		effect:    effect,
 		opCh:      make(chan *CorOp[T], 5),
 		resultCh:  make(chan T, 5),
+		doneCh:    make(chan struct{}),
 		isStarted: AtomBool{flag: 0},
 	}
 	return cor
@@ -129,7 +133,11 @@ func (corSelf *CorDef[T]) YieldRef(out T) T {
 	if more && op != nil && op.cor != nil {
 		cor := op.cor
 		cor.doCloseSafe(func() {
-			cor.resultCh <- out
+			select {
+			case cor.resultCh <- out:
+			case <-cor.doneCh:
+				// The requester completed while its result channel was full
+			}
 		})
 	}
 	result = op.val
@@ -162,8 +170,12 @@ func (corSelf *CorDef[T]) receive(cor *CorDef[T], in T) bool {
 	corSelf.doCloseSafe(func() {
 		if corSelf.opCh != nil {
 			// fmt.Println(corSelf, "Wait for", "receive", cor, in)
-			corSelf.opCh <- &CorOp[T]{cor: cor, val: in}
-			isSent = true
+			select {
+			case corSelf.opCh <- &CorOp[T]{cor: cor, val: in}:
+				isSent = true
+			case <-corSelf.doneCh:
+				// The target completed while its op channel was full: close() is waiting for closedM
+			}
 			// fmt.Println(corSelf, "Wait for", "receive", "done")
 		}
 	})
@@ -199,6 +211,9 @@ func (corSelf *CorDef[T]) IsStarted() bool {
 
 func (corSelf *CorDef[T]) close() {
 	corSelf.isClosed.Set(true)
+	if corSelf.doneCh != nil {
+		corSelf.doneOnce.Do(func() { close(corSelf.doneCh) })
+	}
 	verifAt("cor.close.flagged")
 
 	corSelf.closedM.Lock()
